@@ -30,7 +30,8 @@ pub struct Gen {
     pub check: fn(&J) -> Verdict,
 }
 
-pub const HANG_LIMIT: Duration = Duration::from_secs(6);
+// generous: the checks may run on a loaded machine; a false HANG would be a false alarm
+pub const HANG_LIMIT: Duration = Duration::from_secs(90);
 
 pub struct Outcome {
     pub violation: Option<(String, J, String, String)>,
@@ -92,8 +93,9 @@ pub fn run(prop: &str, key: &str, seed: u64, budget: Duration, skip: &[String]) 
         std::thread::spawn(move || loop {
             std::thread::sleep(Duration::from_millis(100));
             let c = current.lock().unwrap();
-            let overdue = Instant::now() > deadline + Duration::from_millis(500) && c.started.elapsed() > Duration::from_secs(2);
-            if c.active && (c.started.elapsed() > HANG_LIMIT || overdue) {
+            // only C07 (termination) generators may report a hang, and only after the generous limit;
+            // a slow case of another property is simply allowed to finish
+            if c.active && prop == "C07" && c.started.elapsed() > HANG_LIMIT {
                 let out = json!({
                     "found": true, "property": prop, "generator": c.gen, "input": c.case,
                     "observed": format!("HANG: no result after {} s", c.started.elapsed().as_secs()),
